@@ -648,14 +648,26 @@ def replay(path):
     """Re-execute a replay artefact: a recorded trace is re-validated by TLC; a scenario file is
     re-run on the real structure, step by step, against a freshly dumped contract graph."""
     if path.endswith(".ndjson"):
-        acc, prefix, res = validate_trace("ds/NearestNeighborsTrace", os.path.abspath(path), heap="2g")
+        audit = os.path.basename(path).startswith("audit-")
+        acc, prefix, res = validate_trace("ds/GnatAudit" if audit else "ds/NearestNeighborsTrace", os.path.abspath(path),
+                                          heap="2g")
         if acc:
             print("accepted")
             return 0
         evs = vlib.read_ndjson(path)
-        print("REJECTED at event %d: %s" % (prefix + 1, json.dumps(evs[prefix]) if prefix < len(evs) else "?"))
+        print("REJECTED at %s %d%s: %s" % ("record" if audit else "event", prefix + 1,
+                                           " by invariant %s" % res.violated if audit else "",
+                                           json.dumps(evs[prefix])[:3000] if prefix < len(evs) else "?"))
+        return 1
+    if path.endswith(".txt"):
+        print(open(path).read())
         return 1
     sc = json.load(open(path))
+    if "centers" in sc:
+        print(json.dumps(sc, indent=1))
+        print("GreedyKCenters::kcenters on this data vector (in the given order) with this k returned these centres; "
+              "re-run ./check C10 to reproduce")
+        return 1
     if sc.get("kind") == "crash":
         print(json.dumps(sc, indent=1))
         print("re-run ./check C10 to reproduce (crash while walking the graph %s)" % sc.get("config"))
